@@ -47,7 +47,7 @@ CHECKS = {
     "C08": {
         "level": "exploration",
         "legs": [("query", "C08")],
-        "quick": {"runs": 640, "wall": 75},
+        "quick": {"runs": 2400, "wall": 70},
         "thorough": {"runs": 60000, "wall": 1800},
     },
     "C11": {
